@@ -137,6 +137,9 @@ func Wait(o Options) ([]Goroutine, bool) {
 	return Dump(), false
 }
 
+// SelfID returns the id of the calling goroutine.
+func SelfID() int { return selfID() }
+
 func selfID() int {
 	var b [64]byte
 	n := runtime.Stack(b[:], false)
@@ -155,4 +158,14 @@ func Find(gs []Goroutine, sub string) []Goroutine {
 		}
 	}
 	return out
+}
+
+// ByID returns the goroutine with the given id (zero value if it has ended).
+func ByID(gs []Goroutine, id int) (Goroutine, bool) {
+	for _, g := range gs {
+		if g.ID == id {
+			return g, true
+		}
+	}
+	return Goroutine{}, false
 }
